@@ -1220,6 +1220,132 @@ fn wframe_json(w: &WFrame, block: Option<&Vec<u8>>) -> Value {
     }
 }
 
+fn fields_raw(fields: &[(String, Vec<u8>)]) -> Value {
+    Value::Array(fields.iter().map(|(n, v)| json!([n, jb(v)])).collect())
+}
+
+/// full description of a frame to be sent (enough to rebuild it: replay mode)
+fn wframe_raw(w: &WFrame) -> Value {
+    match w {
+        WFrame::Data { sid, es, data } => json!({"t": "data", "sid": sid, "es": es, "data": jb(data)}),
+        WFrame::Headers { sid, es, request, fields, trailers } => json!({"t": "headers", "sid": sid, "es": es,
+            "request": request, "trailers": trailers, "fields": fields_raw(fields)}),
+        WFrame::PushPromise { sid, promised, fields } => {
+            json!({"t": "push_promise", "sid": sid, "promised": promised, "fields": fields_raw(fields)})
+        }
+        WFrame::Settings { ack, vals } => json!({"t": "settings", "ack": ack, "vals": vals.iter().map(|v| opt(*v)).collect::<Vec<_>>()}),
+        WFrame::Ping { ack, payload } => json!({"t": "ping", "ack": ack, "payload": jb(payload)}),
+        WFrame::GoAway { last, code, debug } => json!({"t": "goaway", "last": last, "code": code, "debug": jb(debug)}),
+        WFrame::WindowUpdate { sid, inc } => json!({"t": "window_update", "sid": sid, "inc": inc}),
+        WFrame::Reset { sid, code } => json!({"t": "reset", "sid": sid, "code": code}),
+    }
+}
+
+fn vbytes(v: &Value) -> Vec<u8> {
+    v.as_array().map(|a| a.iter().map(|x| x.as_u64().unwrap_or(0) as u8).collect()).unwrap_or_default()
+}
+
+fn vfields(v: &Value) -> Vec<(String, Vec<u8>)> {
+    v.as_array()
+        .map(|a| a.iter().map(|p| (p[0].as_str().unwrap_or("x").to_string(), vbytes(&p[1]))).collect())
+        .unwrap_or_default()
+}
+
+fn wframe_from(v: &Value) -> WFrame {
+    let u = |k: &str| v[k].as_u64().unwrap_or(0) as u32;
+    let b = |k: &str| v[k].as_bool().unwrap_or(false);
+    match v["t"].as_str().unwrap_or("") {
+        "data" => WFrame::Data { sid: u("sid"), es: b("es"), data: vbytes(&v["data"]) },
+        "headers" => WFrame::Headers { sid: u("sid"), es: b("es"), request: b("request"), trailers: b("trailers"),
+                                       fields: vfields(&v["fields"]) },
+        "push_promise" => WFrame::PushPromise { sid: u("sid"), promised: u("promised"), fields: vfields(&v["fields"]) },
+        "settings" => {
+            let mut vals = [None; 7];
+            if let Some(a) = v["vals"].as_array() {
+                for (i, x) in a.iter().enumerate().take(7) {
+                    vals[i] = x.as_u64().map(|n| n as u32);
+                }
+            }
+            WFrame::Settings { ack: b("ack"), vals }
+        }
+        "ping" => {
+            let p = vbytes(&v["payload"]);
+            let mut a = [0u8; 8];
+            for (i, x) in p.iter().enumerate().take(8) {
+                a[i] = *x;
+            }
+            WFrame::Ping { ack: b("ack"), payload: a }
+        }
+        "goaway" => WFrame::GoAway { last: u("last"), code: u("code"), debug: vbytes(&v["debug"]) },
+        "window_update" => WFrame::WindowUpdate { sid: u("sid"), inc: u("inc") },
+        _ => WFrame::Reset { sid: u("sid"), code: u("code") },
+    }
+}
+
+fn titem_from(v: &Value) -> TItem {
+    match v.as_str() {
+        Some("p") => TItem::Pending,
+        Some("z") => TItem::Zero,
+        Some("e") => TItem::Error,
+        _ => TItem::Accept(v["a"].as_u64().unwrap_or(0) as usize),
+    }
+}
+
+/// run a fixed list of operations (replay / shrinking): stops like the model's `run`
+fn run_fixed(vectored: bool, max: usize, frames: &[WFrame], ops: &[Value], script: &[TItem]) -> Value {
+    let refs = reference_run(vectored, max, frames);
+    let mut mock = Mock::new();
+    mock.vectored = vectored;
+    mock.script = script.iter().cloned().collect();
+    let mut codec: Codec<Mock, Bytes> = Codec::new(mock);
+    codec.set_max_send_frame_size(max);
+    let waker = futures::task::noop_waker();
+    let mut cx = Context::from_waker(&waker);
+    let mut obs: Vec<u64> = Vec::new();
+    let mut done_ops: Vec<Value> = Vec::new();
+    for op in ops {
+        done_ops.push(op.clone());
+        if let Some(i) = op.get("buffer").and_then(|x| x.as_u64()) {
+            let fr = build(&frames[i as usize]);
+            match catch_unwind(AssertUnwindSafe(|| codec.buffer(fr))) {
+                Ok(Ok(())) => obs.push(20),
+                Ok(Err(_)) => obs.push(21),
+                Err(_) => {
+                    obs.push(22);
+                    break;
+                }
+            }
+            continue;
+        }
+        let is_flush = op.as_str() == Some("flush");
+        let base = if is_flush { 10 } else { 0 };
+        let r = catch_unwind(AssertUnwindSafe(|| if is_flush { codec.flush(&mut cx) } else { codec.poll_ready(&mut cx) }));
+        let c = match r {
+            Err(_) => base + 6,
+            Ok(Poll::Ready(Ok(()))) => base,
+            Ok(Poll::Pending) => base + if codec.get_ref().script_exhausted { 4 } else { 1 },
+            Ok(Poll::Ready(Err(e))) => base + io_code(&e),
+        };
+        obs.push(c);
+        if c % 10 != 0 && c % 10 != 1 {
+            break;
+        }
+    }
+    let writes: Vec<Value> = codec.get_ref().writes.iter().map(|w| jb(w)).collect();
+    let frames_json: Vec<Value> = frames
+        .iter()
+        .enumerate()
+        .map(|(i, w)| {
+            let block = refs[i].as_ref().map(|b| block_of(b));
+            let is_hdr = matches!(w, WFrame::Headers { .. } | WFrame::PushPromise { .. });
+            wframe_json(w, if is_hdr { block.as_ref() } else { None })
+        })
+        .collect();
+    json!({"mode": "replay_write", "vectored": vectored, "max": max, "frames": frames_json,
+           "wframes": frames.iter().map(wframe_raw).collect::<Vec<_>>(), "ops": done_ops,
+           "script": script.iter().map(titem_json).collect::<Vec<_>>(), "obs": obs, "writes": writes})
+}
+
 fn expected_header_list(w: &WFrame) -> Vec<(String, Vec<u8>)> {
     let mut out = Vec::new();
     match w {
@@ -1713,10 +1839,53 @@ fn main() {
                 }
                 println!(
                     "{}",
-                    json!({"mode": mode, "vectored": vectored, "max": max, "frames": frames_json, "ops": ops,
+                    json!({"mode": mode, "vectored": vectored, "max": max, "frames": frames_json,
+                           "wframes": frames.iter().map(wframe_raw).collect::<Vec<_>>(), "ops": ops,
                            "script": script.iter().map(titem_json).collect::<Vec<_>>(),
                            "obs": obs, "writes": writes, "buffered": buffered})
                 );
+                cases += 1;
+            }
+        }
+        "replay" => {
+            use std::io::BufRead;
+            let stdin = std::io::stdin();
+            for line in stdin.lock().lines() {
+                let line = line.unwrap_or_default();
+                let v: Value = match serde_json::from_str(&line) {
+                    Ok(v) => v,
+                    Err(_) => continue,
+                };
+                if v["kind"].as_str() == Some("read") {
+                    let bytes = vbytes(&v["bytes"]);
+                    let max_frame = v["max_frame"].as_u64().unwrap_or(16384) as usize;
+                    let max_hls = v["max_hls"].as_u64().unwrap_or(16 << 20) as usize;
+                    let mut items = Vec::new();
+                    let mut i = 0usize;
+                    if let Some(lens) = v["lens"].as_array() {
+                        for l in lens {
+                            let n = (l.as_u64().unwrap_or(0) as usize).min(bytes.len() - i);
+                            items.push(ReadItem::Data(bytes[i..i + n].to_vec()));
+                            i += n;
+                        }
+                    }
+                    if i < bytes.len() {
+                        items.push(ReadItem::Data(bytes[i..].to_vec()));
+                    }
+                    let (events, eof_io) = run_read(max_frame, max_hls, &items);
+                    println!(
+                        "{}",
+                        json!({"mode": "replay_read", "group": 0, "tag": "replay", "max_frame": max_frame, "max_hls": max_hls,
+                               "bytes": jb(&bytes), "lens": chunks_json(&items), "events": events, "eof_io": eof_io})
+                    );
+                } else {
+                    let frames: Vec<WFrame> = v["wframes"].as_array().map(|a| a.iter().map(wframe_from).collect()).unwrap_or_default();
+                    let ops: Vec<Value> = v["ops"].as_array().cloned().unwrap_or_default();
+                    let script: Vec<TItem> = v["script"].as_array().map(|a| a.iter().map(titem_from).collect()).unwrap_or_default();
+                    let out = run_fixed(v["vectored"].as_bool().unwrap_or(false), v["max"].as_u64().unwrap_or(16384) as usize,
+                                        &frames, &ops, &script);
+                    println!("{}", out);
+                }
                 cases += 1;
             }
         }
